@@ -2,6 +2,7 @@
 package progen
 
 import (
+	"github.com/ethereum/go-ethereum/crypto"
 	"math/big"
 
 	"verifharness/internal/asm"
@@ -55,6 +56,12 @@ type gen struct {
 	o     Opts
 	b     *asm.B
 	sites []int // positions of journal opcodes
+	// journal-heavy programs: the variable of the previous journal snippet (registered again, or its sibling of the other type)
+	lastJ struct {
+		set           bool
+		name          []byte
+		slot, off, ty uint64
+	}
 }
 
 var journalPops = map[byte]int{0xe0: 3, 0xe1: 4, 0xe2: 6, 0xe3: 5, 0xe4: 6, 0xe5: 5, 0xe6: 4, 0xe7: 2}
@@ -412,6 +419,9 @@ func (g *gen) journal() {
 	name := names[g.r.Intn(len(names))]
 	slot := uint64(g.r.Intn(4))
 	ty := uint64(10 + g.r.Intn(2))
+	if g.o.JournalHeavy && g.r.Intn(3) != 0 {
+		slot = uint64(g.r.Intn(2)) // few slots: the same (slot, offset, type) gets registered under several names, before and after changes
+	}
 	if g.o.JournalHeavy && g.r.Intn(4) == 0 {
 		// a call that executes nothing (zero value, no such account, or the empty account) right before journaling:
 		// the call in progress is still this frame's
@@ -425,6 +435,18 @@ func (g *gen) journal() {
 	b.MstoreBytes(0x320, name)
 	if g.r.Bool() { // value typed
 		off := uint64(g.r.Intn(32))
+		if g.o.JournalHeavy && g.r.Intn(3) != 0 {
+			off = []uint64{0, 0, 16}[g.r.Intn(3)] // few offsets: variables of different types share (slot, offset), registrations repeat
+		}
+		if g.o.JournalHeavy && g.lastJ.set && g.r.Intn(2) == 0 {
+			// the previous snippet's variable once more (its registration repeats), or its sibling: same slot and offset, the other type
+			name, slot, off, ty = g.lastJ.name, g.lastJ.slot, g.lastJ.off, g.lastJ.ty
+			if g.r.Intn(3) == 0 {
+				ty = 21 - ty
+				name = names[g.r.Intn(len(names))]
+			}
+		}
+		g.lastJ.set, g.lastJ.name, g.lastJ.slot, g.lastJ.off, g.lastJ.ty = true, name, slot, off, ty
 		if g.r.Intn(10) == 0 {
 			off = 32 + uint64(g.r.Intn(3)) // malformed
 		}
@@ -476,9 +498,9 @@ func (g *gen) call() {
 	}
 	switch g.r.Intn(40) {
 	case 0: // output region whose offset + size overflows 64 bits: the memory-size function must report overflow
-		b.Push(1+outsz).PushBig(new(big.Int).SetUint64(^uint64(0)-uint64(g.r.Intn(3)))).Push(insz).Push(inoff)
+		b.Push(1 + outsz).PushBig(new(big.Int).SetUint64(^uint64(0) - uint64(g.r.Intn(3)))).Push(insz).Push(inoff)
 	case 1: // the same for the input region
-		b.Push(outsz).Push(outoff).Push(1+insz).PushBig(new(big.Int).SetUint64(^uint64(0)-uint64(g.r.Intn(3))))
+		b.Push(outsz).Push(outoff).Push(1 + insz).PushBig(new(big.Int).SetUint64(^uint64(0) - uint64(g.r.Intn(3))))
 	case 2: // an offset beyond 64 bits with size zero is no memory access at all
 		b.Push(0).PushBig(new(big.Int).Lsh(big.NewInt(1), uint(64+g.r.Intn(190)))).Push(insz).Push(inoff)
 	default:
@@ -587,6 +609,12 @@ func (g *gen) create() {
 	f := g.o.Fork
 	// init code: optionally SSTORE, then return a short runtime code / revert / invalid
 	ib := asm.New()
+	if f >= 4 && g.r.Intn(3) == 0 {
+		// the init code itself makes a call that returns data (identity precompile on 1..40 bytes of its memory): after the
+		// creation the CREATOR's return-data buffer must hold only what the creation handed back (nothing, unless it reverted)
+		ib.PushBytes(g.r.Bytes(32)).Push(0).Op(asm.MSTORE)
+		ib.Push(0).Push(0).Push(uint64(1 + g.r.Intn(40))).Push(0).Push(4).Op(asm.GAS).Op(asm.STATICCALL).Op(asm.POP)
+	}
 	switch g.r.Intn(8) {
 	case 0:
 		ib.Op(asm.INVALID)
@@ -634,10 +662,44 @@ func (g *gen) create() {
 		g.sink()
 	}
 	emit()
+	if f >= 4 && g.r.Bool() {
+		// what the creation left in the return-data buffer
+		b.Op(asm.RETURNDATASIZE)
+		g.sink()
+		if g.r.Intn(3) == 0 {
+			b.Push(1).Push(0).Push(g.memOff()).Op(asm.RETURNDATACOPY) // fails unless the buffer has at least one byte
+		}
+	}
+	if create2 && f >= 8 && g.r.Intn(3) == 0 {
+		// the address this CREATE2 aimed at, computed by the program itself (a failed creation pushes 0), then touched: it
+		// stays warm after a creation whose init code failed (EIP-2929: the access-list entry is made before the snapshot)
+		h := crypto.Keccak256(init)
+		if size != uint64(len(init)) {
+			h = nil
+		}
+		if h != nil {
+			b.Push(0xff).Push(0).Op(asm.MSTORE8)
+			b.Op(0x30).Push(96).Op(0x1b).Push(1).Op(asm.MSTORE) // ADDRESS << 96 at offset 1
+			b.Push(salt).Push(21).Op(asm.MSTORE)
+			b.PushBytes(h).Push(53).Op(asm.MSTORE)
+			b.Push(85).Push(0).Op(asm.KECCAK256)
+			b.PushBytes(bytes20ff).Op(0x16)             // AND: the low 160 bits
+			b.Op([]byte{0x31, 0x3b, 0x3f}[g.r.Intn(3)]) // BALANCE / EXTCODESIZE / EXTCODEHASH
+			g.sink()
+		}
+	}
 	if create2 && g.r.Intn(3) == 0 {
 		emit() // the same CREATE2 again: an address collision unless the first one failed
 	}
 }
+
+var bytes20ff = func() []byte {
+	b := make([]byte, 20)
+	for i := range b {
+		b[i] = 0xff
+	}
+	return b
+}()
 
 // Program draws one program.
 func Program(r *rng.R, u Universe, o Opts) []byte {
